@@ -1,7 +1,7 @@
 #!/bin/bash
-# usage: confirm_seed.sh <Cxx> [seed-dir]   — confirms a seeded change in its own scratch worktree and records it under /verif/seeded/<id>/
+# usage: confirm_seed.sh <Cxx> [seed-dir] [record-name]   — confirms a seeded change in its own scratch worktree and records it under /verif/seeded/<id>/
 #   1. demo passes without the patch   2. demo fails with it   3. the workspace still compiles and the existing suite passes with it
-id=$1; wt=${2:-/tmp/seed/$id}; sd=$wt/SEED
+id=$1; wt=${2:-/tmp/seed/$id}; sd=$wt/SEED; rec=${3:-$id}
 cd $wt || exit 2
 export CARGO_TARGET_DIR=$wt/target CARGO_NET_OFFLINE=true
 git checkout -q -- . ; 
@@ -13,19 +13,19 @@ echo "== test suite with patch (demo files moved away)"
 # the demo may have edited tracked files (e.g. appended a `mod` line): go back to exactly patch.diff
 git checkout -q -- . ; git apply $sd/patch.diff
 # the demo must not be part of the suite run
-git status --short | grep '^??' | grep -v SEED | grep -v PROPERTY.json | grep -v '^?? target' | awk '{print $2}' > $sd/demo_files.txt
+git status --short | grep '^??' | grep -v SEED | grep -v PROPERTY.json | grep -v ALREADY_TRIED | grep -v '^?? target' | awk '{print $2}' > $sd/demo_files.txt
 mkdir -p $sd/.stash; while read f; do mkdir -p $sd/.stash/$(dirname $f); mv $f $sd/.stash/$f; done < $sd/demo_files.txt
 cargo test --workspace --no-fail-fast --offline > $sd/confirm_suite.log 2>&1; r2=$?
 nfail=$(grep -E "^test result: FAILED|failed;" $sd/confirm_suite.log | grep -v " 0 failed" | wc -l)
 git checkout -q -- . ; rm -rf $sd/.stash
 echo "demo_without=$r0 demo_with=$r1 suite=$r2 failing_groups=$nfail"
 ok=no; [ $r0 -eq 0 ] && [ $r1 -ne 0 ] && [ $r2 -eq 0 ] && ok=yes
-mkdir -p /verif/seeded/$id && cp $sd/patch.diff /verif/seeded/$id/patch.diff && rm -rf /verif/seeded/$id/demo && cp -r $sd/demo /verif/seeded/$id/demo
+mkdir -p /verif/seeded/$rec && cp $sd/patch.diff /verif/seeded/$rec/patch.diff && rm -rf /verif/seeded/$rec/demo && cp -r $sd/demo /verif/seeded/$rec/demo
 python3 - <<PY
 import json
 m=json.load(open('$sd/meta.json'))
 m['confirmed_by_me']={'demo_without_patch_exit':$r0,'demo_with_patch_exit':$r1,'suite_with_patch_exit':$r2,'confirmed':'$ok'=='yes',
   'what_i_ran':['<demo_command> on the clean worktree','git apply patch.diff; <demo_command>','cargo test --workspace --no-fail-fast --offline (with patch, demo files removed)']}
-json.dump(m,open('/verif/seeded/$id/meta.json','w'),indent=1)
+json.dump(m,open('/verif/seeded/$rec/meta.json','w'),indent=1)
 PY
 echo "confirmed=$ok"
